@@ -35,8 +35,24 @@ def u16(s):
     return len(s.encode("utf-16-le")) // 2
 
 
+OSCAT_OPEN = "(*@KEY@:DESCRIPTION*)"
+OSCAT_CLOSE = "(*@KEY@:END_DESCRIPTION*)"
+
+
+def blank_oscat(text):
+    """The free text between the first OSCAT description keys is not source text (ironplc documents this extension):
+    it is read as blanks, line breaks kept."""
+    a = text.find(OSCAT_OPEN)
+    b = text.find(OSCAT_CLOSE)
+    if 0 <= a < b:
+        body = text[a + len(OSCAT_OPEN):b]
+        return text[:a + len(OSCAT_OPEN)] + "".join(c if c == "\n" else " " for c in body) + text[b:]
+    return text
+
+
 def classify(text):
     """[(line, char(chars), char(utf16), length(chars), length(utf16), class, lexeme)], has_invalid"""
+    text = blank_oscat(text)
     out = []
     invalid = False
     line = 0
@@ -161,6 +177,32 @@ def shard(shard_i, nshards, payload):
             rng = core.rng_for(payload["seed"], "c15", i)
             text, atoms = make_doc(rng, bad01)
             kind = "valid"
+            if i % 6 == 1:
+                # an OSCAT description block (free text between two key comments) at the top or between declarations, its
+                # closing key at the start of a line, indented, or on the line of the text
+                body = rng.choice(["any text", "version 1.0\n  second line", "it's 100% free ?", "", "a\nb\nc", "x := (1 + ;"])
+                a_, b_ = rng.choice([("\n", "\n"), ("\n    ", "\n    "), (" ", " "), ("\n", "\n  "), ("\r\n", "\r\n"), ("", "")])
+                block = "%s%s%s%s%s" % (OSCAT_OPEN, a_, body, b_, OSCAT_CLOSE)
+                nls = [m_.start() for m_ in re.finditer("\n", text)]
+                if nls and rng.random() < 0.5 and "(*" not in text:
+                    k = rng.choice(nls)
+                    text = text[:k + 1] + block + "\n" + text[k + 1:]
+                else:
+                    text = block + rng.choice(["\n", " ", "\r\n"]) + text
+                kind = "oscat"
+            elif i % 5 == 2:
+                # the document while it is being typed: cut off after a token (END_IF when there is one), then only
+                # blanks and comments up to the end
+                ends = [m_.end() for m_ in re.finditer(r"(?i)\bEND_IF\b", text)]
+                if ends and rng.random() < 0.7:
+                    k = rng.choice(ends)
+                else:
+                    cuts = [m_.end() for m_ in LEX.finditer(text) if m_.lastgroup in ("word", "punct", "op", "number")]
+                    k = rng.choice(cuts) if cuts else len(text)
+                # not inside a comment or string: cut only where the prefix lexes cleanly
+                if not classify(text[:k])[1] and text[:k].count("(*") == text[:k].count("*)"):
+                    text = text[:k] + rng.choice([" (* x *)", "\n(* a *)\n(* b *)", " (* c *) ", "\n\n(* end *)\n", "(* é *)", ""])
+                    kind = "truncated"
             if i % 7 == 3:
                 # planted invalid character: the answer must be null
                 k = rng.randrange(len(text) + 1)
